@@ -58,6 +58,13 @@ type Packet struct {
 	Codes  []byte   // SUBACK, UNSUBACK
 	Unsubs []string // UNSUBSCRIBE
 
+	// WillExtra asks the builder to set, on the *Publish handed to SetWill,
+	// fields a PUBLISH has and a will message has not (bit 0 topic alias, 1 a
+	// subscription identifier, 2 packet identifier, 3 DUP) - as when a
+	// received PUBLISH is reused as the will. Not part of the packet's
+	// meaning: MQTT cannot carry them in a CONNECT.
+	WillExtra byte
+
 	Form int    // see Form* constants; not part of the packet's meaning
 	Raw  []byte // type 0: the body as found
 }
